@@ -125,7 +125,9 @@ fn malformed_tail(rng: &mut Rng, ctype: u8) -> Vec<u8> {
     }
 }
 
-fn add(s: &mut Scenario, next_id: &mut u8, m: Item, ids: &mut Vec<u8>, total: &mut usize) -> bool {
+fn add(rng: &mut Rng, s: &mut Scenario, next_id: &mut u8, m: Item, ids: &mut Vec<u8>, total: &mut usize) -> bool {
+    // the value oracle of C03 speaks of well-formed messages: RFC-valid values only
+    let m = gen::rfc_valid(rng, m);
     let l = enc::tls_message(&m).len();
     if *total + l > CAP || ids.len() >= 200 {
         return false;
@@ -152,12 +154,13 @@ fn gen_record(rng: &mut Rng, s: &mut Scenario, next_id: &mut u8, batch: u64, bud
     let band = budget >= CAP && rng.chance(1, 4);
     match ctype {
         20 | 21 | 24 if band => {
-            let n = rng.urange(16385, CAP);
+            // (a heartbeat message is at most 2^14 bytes, RFC 6520: its band stops there)
+            let n = if ctype == 24 { rng.urange(16000, 16384) } else { rng.urange(16385, CAP) };
             let m = match ctype {
                 20 => Item::new("ccs").int("_rep", n as u64),
                 21 => gen::alert(rng).int("_rep", (n / 2) as u64),
                 _ => {
-                    let plen = rng.urange(16000, n - 3);
+                    let plen = rng.urange(15000, n - 3);
                     Item::new("heartbeat").int("hbtype", 1).int("plen", plen as u64).bytes("payload", &rng.bytes(plen)).bytes("pad", &rng.bytes(n - 3 - plen))
                 }
             };
@@ -168,7 +171,7 @@ fn gen_record(rng: &mut Rng, s: &mut Scenario, next_id: &mut u8, batch: u64, bud
         22 if band => {
             let want = rng.urange(16385, CAP) - 4;
             let m = Item::new("certificate_verify").bytes("body", &rng.bytes(want));
-            add(s, next_id, m, &mut ids, &mut total);
+            add(rng, s, next_id, m, &mut ids, &mut total);
         }
         20 | 21 | 22 if crowd => {
             // a crowded record: far more messages than any fixed small bound
@@ -200,29 +203,29 @@ fn gen_record(rng: &mut Rng, s: &mut Scenario, next_id: &mut u8, batch: u64, bud
                     break;
                 }
                 let m = gen::any_handshake(rng, b);
-                if !add(s, next_id, m, &mut ids, &mut total) {
+                if !add(rng, s, next_id, m, &mut ids, &mut total) {
                     break;
                 }
             }
         }
         20 => {
             for _ in 0..rng.urange(1, 3) {
-                add(s, next_id, Item::new("ccs"), &mut ids, &mut total);
+                add(rng, s, next_id, Item::new("ccs"), &mut ids, &mut total);
             }
         }
         21 => {
             for _ in 0..rng.urange(1, 4) {
                 let m = gen::alert(rng);
-                add(s, next_id, m, &mut ids, &mut total);
+                add(rng, s, next_id, m, &mut ids, &mut total);
             }
         }
         23 => {
             let m = gen::appdata(rng, budget.min(CAP));
-            add(s, next_id, m, &mut ids, &mut total);
+            add(rng, s, next_id, m, &mut ids, &mut total);
         }
         _ => {
-            let m = gen::heartbeat(rng, budget.min(CAP));
-            add(s, next_id, m, &mut ids, &mut total);
+            let m = gen::heartbeat(rng, budget.min(16384));
+            add(rng, s, next_id, m, &mut ids, &mut total);
         }
     }
     let mut rec = Item::new("rec").int("type", ctype as u64).int("ver", ver);
@@ -239,7 +242,8 @@ fn gen_record(rng: &mut Rng, s: &mut Scenario, next_id: &mut u8, batch: u64, bud
             }
             1 => {
                 // unknown content type
-                let t = *rng.pick(&[0u8, 1, 19, 25, 26, 0x80, 0xff]);
+                // (25 and 26 are assigned by now - tls12_cid, ACK - and may gain support: unassigned values only)
+                let t = *rng.pick(&[0u8, 1, 19, 27, 63, 0x80, 0xff]);
                 rec.set("type", crate::item::Val::Int(t as u64));
                 x = "reject";
             }
